@@ -233,9 +233,9 @@ class SRC:
         calloutparsers.Xcallouts.Xcallouts module if it's there.
         (X = creator ID in lower case)
         """
+        name = self.creatorID.lower() + "callouts"
+        calloutParserMod = "calloutparsers." + name + "." + name
         try:
-            name = self.creatorID.lower() + "callouts"
-            calloutParserMod = "calloutparsers." + name + "." + name
             if calloutParserMod in calloutParsers:
                 cls = calloutParsers[calloutParserMod]
                 if cls is None:
@@ -244,12 +244,15 @@ class SRC:
             else:
                 cls = importlib.import_module(calloutParserMod)
                 calloutParsers[calloutParserMod] = cls
+        except Exception:
+            calloutParsers[calloutParserMod] = None
+            return
 
+        try:
             desc = cls.getMaintProcDesc(procName)
             if desc:
                 out["Description"] = json.loads(desc)
-        except:
-            calloutParsers[calloutParserMod] = None
+        except Exception:
             pass
 
     def getCallouts(self, out: OrderedDict, config: Config):
